@@ -185,7 +185,7 @@ def _do_action(rule, key, frame_getter):
         log("fault_end", rule=rule["id"])
     elif a0 == "kill":
         log("fault", kind="kill", sig=act[1], rule=rule["id"], pt=key, ann=_ann, role=ROLE, proc=PROC_NAME)
-        os.kill(PID, getattr(signal, act[1]))
+        os.kill(PID, act[1] if isinstance(act[1], int) else getattr(signal, act[1]))
         time.sleep(5)  # a catchable signal may take an instant to be delivered
     elif a0 == "exit":
         log("fault", kind="exit", code=act[1], rule=rule["id"], pt=key, ann=_ann, role=ROLE, proc=PROC_NAME)
